@@ -2,6 +2,7 @@ package main
 
 import (
 	"fmt"
+	"go/token"
 	"sort"
 	"strings"
 
@@ -128,6 +129,23 @@ func (c *Ctx) globalWrites(pkgs ...string) (writes []globalWrite, globals []*ssa
 					case *ssa.MapUpdate:
 						if g := fromGlobal(x.Map); g != nil {
 							writes = append(writes, globalWrite{f, x, g, "map update of " + org(x.Map)})
+						}
+					case *ssa.Send:
+						// a package-level channel (semaphore, queue) couples otherwise independent calls
+						if g := fromGlobal(x.Chan); g != nil {
+							writes = append(writes, globalWrite{f, x, g, "send on " + org(x.Chan)})
+						}
+					case *ssa.UnOp:
+						if x.Op == token.ARROW {
+							if g := fromGlobal(x.X); g != nil {
+								writes = append(writes, globalWrite{f, x, g, "receive from " + org(x.X)})
+							}
+						}
+					case *ssa.Select:
+						for _, st := range x.States {
+							if g := fromGlobal(st.Chan); g != nil {
+								writes = append(writes, globalWrite{f, x, g, "select on " + org(st.Chan)})
+							}
 						}
 					case ssa.CallInstruction:
 						n := calleeName(x)
